@@ -21,9 +21,15 @@ FULL STATEMENTS THAT ARE FALSE OF THE PINNED CODE (kept, not weakened silently):
   frame_full          :  every request leaves every project outside its authority unchanged
   guards_present_full :  every lookup of a Yorkie handler receives the project id
 
-They fail exactly at the pairs in `leaks` (`revisions.Get`, `Channel.Detach`,
-`Channel.Refresh` take a bare id; see `*_witness`), so each is proved as `…` with the
-explicit decidable side condition `¬ leaky …` plus a witness by evaluation.
+They fail exactly where a handler looks a session up by its bare id (`Channel.Detach`,
+`Channel.Refresh`; see `*_witness`), so each is proved as `…` with the explicit decidable
+side condition `¬ leaky …` plus a witness by evaluation.
+
+A third such lookup – `YorkieService.GetRevision` via `revisions.Get(revisionID)` – was
+repaired by /repo commit ddb0dfd3 (the handler now compares `revision.ProjectID` / `DocID`
+with the resolved project / document). The table models the repaired handler;
+`getRevision_fixed_witness` documents the old behaviour on the named variant
+`Access.oldGetRevision`.
 -/
 import YorkieModel.Model.Access
 import YorkieModel.Lemmas.Access
@@ -69,14 +75,23 @@ def exemptCalls : List String :=
    "converter.FromProject", "s.backend.ClusterClient", "database.NewMemberRole", "s.backend.BroadcastCacheInvalidation",
    "users.SignUp", "users.IsCorrectPassword", "users.DeleteAccountByName", "users.ChangePassword", "check:ProjectID"]
 
-/-- The pinned code's lookups by bare id (the findings of C13): (method, call). -/
+/-- The code's lookups by bare id that are NOT followed by a project comparison (the finding
+c13-session-global): (method, call). -/
 def bareIdLookups : List (String × String) :=
-  [("GetRevision", "revisions.Get"), ("DetachChannel", "s.backend.Channel.Detach"),
-   ("RefreshChannel", "s.backend.Channel.Refresh")]
+  [("DetachChannel", "s.backend.Channel.Detach"), ("RefreshChannel", "s.backend.Channel.Refresh")]
 
-/-- every data call of a Yorkie / cluster handler receives an argument derived from the project -/
-def keyedByProject (method : String) (calls : List (String × Bool × Bool)) : Bool :=
-  calls.all (fun c => exemptCalls.contains c.1 || c.2.1 || bareIdLookups.contains (method, c.1))
+/-- every data call of a Yorkie / cluster handler receives an argument derived from the
+project; a revision looked up by its bare id is immediately followed by the comparison of its
+`ProjectID` with the project (GetRevision since ddb0dfd3) -/
+def keyedByProject (method : String) : List (String × Bool × Bool) → Bool
+  | [] => true
+  | c :: rest =>
+    (if c.1 = "s.backend.DB.FindRevisionInfoByID" then
+        (match rest with
+         | n :: _ => n.1 = "check:ProjectID" && n.2.1
+         | [] => false)
+      else exemptCalls.contains c.1 || c.2.1 || bareIdLookups.contains (method, c.1))
+    && keyedByProject method rest
 
 /-- admin: every data call receives the project or the authenticated user; a lookup by bare
 revision id is immediately followed by the comparison of its `ProjectID` with the project -/
@@ -167,7 +182,8 @@ theorem handlers_extracted :
 
 /-- Yorkie service: every handler takes the project from the request context (put there by
 the interceptor from the API key), calls `auth.VerifyAccess`, and every lookup / write it
-makes receives that project – except the listed lookups by bare id (`bareIdLookups`). -/
+makes receives that project (a revision fetched by bare id is compared with the project at
+once) – except the listed lookups by bare session id (`bareIdLookups`). -/
 theorem guards_present_yorkie :
     ∀ h ∈ Rpc.handlers, h.1 = "YorkieService" →
       h.2.2.any (fun c => c.1 = "projects.From") ∧ h.2.2.any (fun c => c.1 = "auth.VerifyAccess") ∧
@@ -379,11 +395,11 @@ def consults (h : Handler) : List Field :=
 def leaky (h : Handler) (f : Field) : Bool :=
   (f = .rev && h.guards.contains .revisionGlobal) || (f = .session && h.guards.contains .sessionGlobal)
 
-/-- exactly three procedures have a global guard or a non-local effect -/
+/-- exactly two procedures have a global guard or a non-local effect -/
 theorem leaks_exact :
     ∀ svc ∈ Svc.all, ∀ e ∈ handlersOf svc,
       ((e.2.guards.all Guard.isLocal = false ∨ e.2.effect.isLocal = false) ↔
-        (svc = .yorkie ∧ e.1 ∈ ["GetRevision", "DetachChannel", "RefreshChannel"])) := by decide
+        (svc = .yorkie ∧ e.1 ∈ ["DetachChannel", "RefreshChannel"])) := by decide
 
 /-- the request names, in a field the handler consults and does not leak, an object of a
 project outside the credential's authority -/
@@ -416,15 +432,28 @@ theorem foreign_denied :
         (decideH cfg svc e.2 c t = .failedPrecondition ∧ e.2.guards.contains .attachedTo = true) ∨
         (decideH cfg svc e.2 c t = .crash ∧ kindMismatch e.2 c = true) := by decide +kernel
 
-/-- `foreign_denied_full` is false: the three leaks answer `ok` to a foreign id (and
+/-- `foreign_denied_full` is false: the two session leaks answer `ok` to a foreign id (and
 `not_found` to an id that exists nowhere). -/
 theorem foreign_denied_witness :
-    decideReq {} .yorkie "GetRevision" (.apiKey .A) (.rev false) = .ok ∧
     decideReq {} .yorkie "DetachChannel" (.apiKey .A) (.session false) = .ok ∧
     decideReq {} .yorkie "RefreshChannel" (.apiKey .A) (.session false) = .ok ∧
-    decideReq {} .yorkie "GetRevision" (.apiKey .A) (.rev true) = .notFound ∧
     decideReq {} .yorkie "DetachChannel" (.apiKey .A) (.session true) = .notFound ∧
     decideReq {} .yorkie "RefreshChannel" (.apiKey .A) (.session true) = .notFound := by decide
+
+/-- The defect repaired by /repo commit ddb0dfd3, stated about the old variant of the handler
+(`Access.oldGetRevision`: revision loaded by bare id): with A's key, client and document it
+answered `ok` to B's revision id and its decision depended on B's state; the handler of the
+table answers `not_found`, exactly as for an id that exists nowhere, and reads A only. -/
+theorem getRevision_fixed_witness :
+    decideH {} .yorkie oldGetRevision (.apiKey .A) (.rev false) = .ok ∧
+    decideH {} .yorkie oldGetRevision (.apiKey .A) (.rev true) = .notFound ∧
+    (execH {} (world0.set .B {}) .yorkie oldGetRevision (.apiKey .A) { rev := .of .B }).1 = .notFound ∧
+    decideReq {} .yorkie "GetRevision" (.apiKey .A) (.rev false) = .notFound ∧
+    decideReq {} .yorkie "GetRevision" (.apiKey .A) (.rev true) = .notFound ∧
+    decideReq {} .yorkie "GetRevision" (.apiKey .A) .own = .ok ∧
+    (∃ H, handlerOf .yorkie "GetRevision" = some H ∧ H.guards.all Guard.isLocal = true ∧
+      ∀ p ∈ reads {} .yorkie H (.apiKey .A) { rev := .of .B }, p = .A) := by
+  refine ⟨by decide, by decide, by decide, by decide, by decide, by decide, _, rfl, by decide, by decide⟩
 
 def validCred : Cred → Bool
   | .apiKey _ | .token _ | .secret _ | .clusterSecret => true
